@@ -301,6 +301,8 @@ Plan(db, e) ==
     [] e.op = "Transact" -> Ok(db)
 
     [] e.op = "NativeActivate" -> Ok([db EXCEPT ![e.c].native.active = TRUE])
+    \* SetInterpreter with ANOTHER native interpreter instance that holds the same registrations: nothing changes
+    [] e.op = "NativeSwap" -> Ok(db)
     [] e.op = "AddMatcher" ->
          LET g == [t |-> e.t, kind |-> e.mkind, text |-> NormWS(e.text), id |-> e.id, verdict |-> e.verdict]
              keep == { x \in cl.native.regs : ~(x.t = g.t /\ x.kind = g.kind /\ x.text = g.text) }
